@@ -39,6 +39,9 @@ def pair(want):
     sp_conf = env.sp_config(metadata_xml=[], want_response_signed=want[0], want_assertions_signed=want[1], want_assertions_or_response_signed=want[2],
                             top_allow_unknown_attributes=want[3], top_accepted_time_diff=want[4], **asks)
     idp_conf = env.idp_config(metadata_xml=[])
+    if len(want) > 5 and want[5] == 'perSPpartial':
+        # an entry of its own for this SP that says nothing about lifetime or name format
+        idp_conf['service']['idp']['policy'][env.SP] = {'attribute_restrictions': None}
     sp0, idp0 = env.make_sp(sp_conf), env.make_idp(idp_conf)
     sp_md, idp_md = str(entity_descriptor(sp0.config)), str(entity_descriptor(idp0.config))
     sp_conf['metadata'] = {'inline': [idp_md]}
@@ -89,7 +92,7 @@ class Inputs(html.parser.HTMLParser):
 def replay(case):
     from saml2_tophat.saml import NameID
     scn = case['scn']
-    want = [scn['wantResp'], scn['wantAssert'], scn['wantEither'], scn['unknownAttr'], scn['skew']]
+    want = [scn['wantResp'], scn['wantAssert'], scn['wantEither'], scn['unknownAttr'], scn['skew'], scn.get('idpPolicy', 'defaultOnly')]
     idp, sp, sp_md, idp_md = pair(want)
     rng = random.Random(json.dumps(scn, sort_keys=True) + str(case.get('seed', 0)))
     vals = values_of(scn['vclass'], rng)
